@@ -654,17 +654,26 @@ def _full_rhs(prob, parts, u, t):
 
 def _split_siblings(ck, col, classes, rng, thorough, violate):
     ngroups = 0
-    for name, members, state in L.SIBLINGS:
+    nonlit = {}
+    for g in L.SIBLINGS:
+        name, members, state = g['name'], g['members'], g['state']
         if any(k not in classes for k, _, _ in members):
             continue
-        try:
-            probs = [(k, classes[k](**p), parts) for k, p, parts in members]
-        except Exception as e:
-            violate('constructing split sibling group %s raised %s: %s' % (name, type(e).__name__, e), {'group': name},
-                    {'kind': 'construct', 'group': name}, ('construct-sib', name))
-            continue
         ngroups += 1
-        for j in range(4 if thorough else 2):
+        literals = L.source_literals([classes[k] for k, _, _ in members])
+        for j in range(6 if thorough else 2):
+            # even trials: every scalar parameter differs from all numeric literals of the classes' source (where the grid
+            # offers such a value); odd trials: any grid point, defaults included
+            drawn, forced = L.draw_params(g['grid'], rng, literals if j % 2 == 0 else None)
+            if j % 2 == 0:
+                nonlit[name] = forced
+            pdesc = {k: repr(v) for k, v in sorted(drawn.items())}
+            try:
+                probs = [(k, classes[k](**mapper(drawn)), parts) for k, mapper, parts in members]
+            except Exception as e:
+                violate('constructing split sibling group %s with %s raised %s: %s' % (name, pdesc, type(e).__name__, e), {'group': name, 'params': pdesc},
+                        {'kind': 'construct', 'group': name}, ('construct-sib', name))
+                continue
             t = rng.uniform(0.0, 1.0)
             ref_prob = probs[0][1]
             vals = np.asarray(state(ref_prob, rng))
@@ -689,9 +698,11 @@ def _split_siblings(ck, col, classes, rng, thorough, violate):
                 d = float(np.max(np.abs(tot.ravel() - ref_full.ravel())))
                 cid = 'split|%s|%s|%d' % (name, k, j)
                 ck.case(key=cid, nontrivial=True)
-                replay = {'group': name, 'reference': ref_k, 'class': k, 'parts': parts, 't': t, 'u': hexlist(vals), 'difference': d, 'tolerance': tol}
+                replay = {'group': name, 'reference': ref_k, 'class': k, 'parts': parts, 'parameters': pdesc, 't': t, 'u': hexlist(vals),
+                          'difference': d, 'tolerance': tol, 'magnitude': mag}
                 match = {'kind': 'split-sum', 'group': name, 'class': k}
-                what = 'split sibling %s: sum of %s differs from %s of %s by %.3e (> %.3e)' % (k, parts, ref_parts, ref_k, d, tol)
+                what = ('split sibling %s: sum of %s differs from %s of %s by %.3e (> %.3e, |f| ~ %.2e) for parameters %s'
+                        % (k, parts, ref_parts, ref_k, d, tol, mag, pdesc))
                 ok = d <= tol
                 if not ok:
                     violate(what, replay, match, ('split', name, k))
@@ -706,6 +717,7 @@ def _split_siblings(ck, col, classes, rng, thorough, violate):
                              'group': cid},
                             defs, '([check_split_cert f1_@K f2_@K ff_@K %s], [out (split_cert_worst f1_@K f2_@K ff_@K); out %s])' % (tl, tl))
     ck.cov['split_groups'] = ngroups
+    ck.cov['split_params_forced_off_source_literals'] = nonlit
 
 
 # ------------------------------------------------------------------------------------------------- closed-form solutions
